@@ -300,6 +300,7 @@ func solveAllInner(obls []*Obligation, outDir string, timeout time.Duration, tho
 					}
 				}
 				res[i] = r
+				dropFiles(i, r, []string{files[i]})
 			}(i)
 			continue
 		}
@@ -315,6 +316,7 @@ func solveAllInner(obls []*Obligation, outDir string, timeout time.Duration, tho
 		wg.Wait()
 		for _, i := range phase2 {
 			if res[i] != nil && (res[i].Status == "sat" || res[i].Status == "unsat") {
+				dropFiles(i, res[i], cases[i])
 				continue
 			}
 			o := obls[i]
@@ -337,6 +339,7 @@ func solveAllInner(obls []*Obligation, outDir string, timeout time.Duration, tho
 					r.Secs += prev.Secs
 				}
 				res[i] = r
+				dropFiles(i, r, cases[i])
 			}(i, prev)
 		}
 	}
@@ -498,6 +501,8 @@ func raceBoth(o *Obligation, file string, timeout time.Duration) *Result {
 // solver that answers sat on the original query is a disagreement and is reported as not discharged; one that
 // times out leaves the discharge standing with a single witness (recorded in the evidence).
 func solveAll(obls []*Obligation, outDir string, timeout time.Duration, thorough bool, jobs int) []*Result {
+	eagerDelete = !thorough
+	nObls = len(obls)
 	res := solveAllInner(obls, outDir, timeout, false, jobs)
 	if !thorough {
 		return res
@@ -552,4 +557,27 @@ func solveAll(obls []*Obligation, outDir string, timeout time.Duration, thorough
 	}
 	wg.Wait()
 	return res
+}
+
+// eager clean-up (quick tier): the SMT files of an obligation are removed as soon as it is discharged, except for
+// the few the evidence samples point to; the peak size of out/<id> then stays small even for the largest check
+var eagerDelete bool
+var nObls int
+
+func isSampleIdx(i, n int) bool {
+	st := n / 12
+	if st < 1 {
+		st = 1
+	}
+	return i%st == 0
+}
+
+func dropFiles(i int, r *Result, files []string) {
+	if !eagerDelete || r == nil || !r.OK() || isSampleIdx(i, nObls) {
+		return
+	}
+	for _, f := range files {
+		os.Remove(f)
+		os.Remove(f + ".qf")
+	}
 }
